@@ -52,15 +52,17 @@ ReachK(S, k, tb) == IF k = 0 THEN S ELSE ReachK(UNION {Exact(x[1], x[2], {"d", "
 JSpell(r) ==
     LET tb == [ins |-> {}, rep |-> {}, del |-> {r.case.del[k] : k \in 1..Len(r.case.del)}, swp |-> {r.case.del[k] : k \in 1..Len(r.case.del)},
                fullDelete |-> r.full]
-        n == Len(r.w)
-        ends(k) == {x[1] : x \in ReachK({<<r.w, {}>>}, k, tb)}
-        possible == IF r.pone THEN ends(n) ELSE UNION {ends(k) : k \in 1..n}
-    IN [why |-> IF r.out \in possible THEN <<>> ELSE <<"spelling_corruption_chains_edits_with_the_returned_exclusions">>,
-        drift |-> <<>>, skip |-> FALSE, nt |-> n >= 2]
+        ends(w, k) == {x[1] : x \in ReachK({<<w, {}>>}, k, tb)}
+        possible(w) == IF r.pone THEN ends(w, Len(w)) ELSE UNION {ends(w, k) : k \in 1..Len(w)}
+        \* several words: every word is corrupted on its own, starting with nothing protected
+        ok == IF r.ws = <<>> THEN r.out \in possible(r.w)
+              ELSE Len(r.outs) = Len(r.ws) /\ \A k \in 1..Len(r.ws) : r.outs[k] \in possible(r.ws[k])
+    IN [why |-> IF ok THEN <<>> ELSE <<"spelling_corruption_chains_edits_with_the_returned_exclusions">>,
+        drift |-> <<>>, skip |-> FALSE, nt |-> Len(r.w) >= 2 \/ Len(r.ws) >= 2]
 
 Judge(r) ==
     IF r.st # "ok" THEN [why |-> <<r.st>>, drift |-> <<>>, skip |-> FALSE, nt |-> TRUE]
-    ELSE IF DupCtx(r.tb) \/ \E k \in 1..Len(r.w) : r.w[k] = 0 THEN [why |-> <<>>, drift |-> <<>>, skip |-> TRUE, nt |-> FALSE]
+    ELSE IF r.kind # "spell" /\ (DupCtx(r.tb) \/ \E k \in 1..Len(r.w) : r.w[k] = 0) THEN [why |-> <<>>, drift |-> <<>>, skip |-> TRUE, nt |-> FALSE]
     ELSE IF r.kind = "spell" THEN JSpell(r)
     ELSE IF r.kind = "edit" THEN JEdit(r) ELSE JProvider(r)
 
